@@ -175,10 +175,13 @@ func (w *Wallet) AddMint(mint string) (*walletMint, error) {
 		return nil, err
 	}
 
+	// keysets the wallet already holds keep their stored counter
+	activeKeyset.Counter = w.db.GetKeysetCounter(activeKeyset.Id)
 	if err := w.db.SaveKeyset(activeKeyset); err != nil {
 		return nil, err
 	}
 	for i, keyset := range inactiveKeysets {
+		keyset.Counter = w.db.GetKeysetCounter(keyset.Id)
 		if err := w.db.SaveKeyset(&keyset); err != nil {
 			return nil, err
 		}
